@@ -67,7 +67,7 @@ def strategy(tier):
                                  (2, st.tuples(st.just('state'), st.integers(0, 20), st.sampled_from(['closed', 'closed', 'idle', 'open'])).map(list)),
                                  (1, st.just(['gc']))), 0, 30),
   })
-  return st.one_of(single, single, ref, shared)
+  return weighted((2, single), (1, ref), (1, shared))
 
 
 class Conn(ClientMessageSink):
